@@ -253,8 +253,10 @@ def object_case(c):
         cc = shift / dt
         r = float(rng.choice(eta[0]))
         f = np.array([rng.uniform(0, 1) for _ in range(n)])
-        obj._interpolator.compute_interpolant(f, obj._spline)
-        coeffs = np.array(obj._spline.coeffs, dtype=float).copy()
+        # (with tools of the harness's own: the state of the object under test is only touched by its own methods)
+        it_, sp_ = ac.own_tools(bs[3])
+        it_.compute_interpolant(f, sp_)
+        coeffs = np.array(sp_.coeffs, dtype=float).copy()
         vPts = obj._points - cc * dt
         g = f.copy()
         if t % 4 == 1:
